@@ -160,6 +160,7 @@ def needed_groups(files, kani_dir):
     by_mod = {g["mod"]: k for k, g in GROUPS.items()}
     need = {by_file[f] for f in files if f in by_file}
     need.add("spec")
+    need.add("c20")  # `impl kani::Arbitrary for Move` lives there; harnesses use it through kani::any::<Move>() without naming the module
     work = list(need)
     while work:
         k = work.pop()
